@@ -107,6 +107,7 @@ class Lab:
         self.inflight = []
         self.submissions = []  # (task fullname, eval_hash, args_hash, context_hash, job id)
         self.completions = []
+        self.completion_log = []  # (task name, repr of the arguments) in completion order
         self.max_held = {}
         self.violations = []
         self.executor = LabExecutor("default", self)
@@ -160,6 +161,7 @@ class Lab:
         job = self.inflight.pop(idx)
         self.completions.append(job.id)
         args, kwargs = job.args
+        self.completion_log.append((job.task.name, repr(args)))
         try:
             result = job.task.func(*args, **kwargs)
         except Exception as e:  # the task body failed: the executor reports the error
